@@ -57,12 +57,20 @@ OPS = [
     ("m25", "", "", "{ me { username reviews { body } } topProducts(first: 0) { name reviews { body } } }"),
 ]
 MULTI = {"m07", "m08", "m19", "m25"}
+# operations over harness/internal/minifed (ids n..): @requires on a nested entity with ValidateRequiredExternalFields
+# (tainted objects), an entity key that is a non-null ID delivered by a faultable request, a chain of 4 subgraphs
+OPS += [
+    ("n01", "", "", "{ user { name orders { sku total label } summary } }"),
+    ("n02", "", "", "{ user { orders { id } name summary } }"),
+    ("n03", "", "", "{ user { name orders { label } } }"),
+    ("n04", "", "", "{ user { id orders { sku } summary name } }"),
+]
 
 
 def op_dict(o):
-    return {"id": o[0], "name": o[1], "vars": o[2], "query": o[3], "multi": o[0] in MULTI}
+    return {"id": o[0], "name": o[1], "vars": o[2], "query": o[3], "multi": o[0] in MULTI, "env": "mini" if o[0].startswith("n") else ""}
 
-INVS = ["NoFabrication", "SameOperation", "Independent", "SkipJustified", "SkipHonoured", "ErrorReportedPerFetch", "DepsSettled",
+INVS = ["RepeatClean", "NoFabrication", "SameOperation", "Independent", "SkipJustified", "SkipHonoured", "ErrorReportedPerFetch", "DepsSettled",
         "ResponseWellFormed", "ErrorsNonEmpty", "Isolated"]
 EVENTS = {"ld.skipped", "ld.prepared", "ld.load", "ld.loaded", "ld.merging", "ld.merged", "req"}
 
@@ -282,6 +290,21 @@ def trace_of(pi, res):
         pass
     lines.append({"ev": "response", "f": 0, "b": 0, "arrived": 1 if res["arrived"] else 0, "valid": valid, "nerr": nerr,
                   "hasdata": valid, "a": pi.a, "x": x})
+    rp = res.get("repeat")
+    if rp:
+        valid, nerr, x = 0, 0, {"t": "null"}
+        try:
+            doc = json.loads(rp["response"])
+            if isinstance(doc, dict):
+                valid = 1
+                nerr = len(doc.get("errors") or [])
+                x = tag(doc.get("data"))
+        except ValueError:
+            pass
+        key = lambda e: (e["subgraph"], e["query"], e["variables"])
+        reqsame = 1 if sorted(map(key, rp["exchanges"])) == sorted(map(key, pi.plan["exchanges"])) else 0
+        lines.append({"ev": "repeat", "f": 0, "b": 0, "arrived": 1 if rp["arrived"] else 0, "valid": valid, "nerr": nerr,
+                      "reqsame": reqsame, "x": x})
     return lines
 
 
@@ -379,6 +402,7 @@ def replay(ctx, binary):
     case = rep["case"]["case"]
     op = rep["case"].get("operation") or op_dict(next(o for o in OPS if o[0] == case["op"]))
     op.setdefault("multi", op["id"] in MULTI)
+    op.setdefault("env", "mini" if op["id"].startswith("n") else "")
     ops_path = ctx.path("ops.json")
     with open(ops_path, "w") as f:
         json.dump([op], f)
@@ -397,12 +421,21 @@ def replay(ctx, binary):
         print("  %s at event #%d %s" % (verdict, off, json.dumps({k: v for k, v in ev.items() if k not in ("a", "x")})))
         fid = ev.get("f", 0) - 1
         if verdict in PER_FETCH and 0 <= fid < pi.n:
-            key = "%s:%s/%s" % (verdict, pi.fetches[fid]["kind"], case["faults"].get(str(fid), "ok"))
+            key = fetch_key(pi, verdict, fid, case["faults"], res)
         else:
             key = "%s:%s" % (verdict, pi.sig(case["faults"], res))
         ctx.violation(key, "replay: %s; response %s" % (verdict, res["response"][:400]), {"case": case, "operation": op, "response": res["response"],
                                                                                          "exchanges": res["exchanges"], "events": res["events"]})
     ctx.coverage.update({"traces_validated_against_impl": 1, "evaluations": 1, "distinct_nontrivial": 1, "rule": "replay of one recorded case", "exhaustive": False})
+
+
+def fetch_key(pi, verdict, fid, faults, res):
+    if verdict == "ErrorReportedPerFetch":
+        # about the fetch's own failure
+        return "%s:%s/%s" % (verdict, pi.fetches[fid]["kind"], faults.get(str(fid), "ok"))
+    # about what the loader did with a fetch because of failures that materialised elsewhere
+    others = {k: v for k, v in faults.items() if k != str(fid)}
+    return "%s:%s@%s" % (verdict, pi.fetches[fid]["kind"], pi.sig(others, res))
 
 
 PER_FETCH = ("ErrorReportedPerFetch", "NoFabrication", "SameOperation", "Independent", "SkipJustified", "SkipHonoured", "DepsSettled")
@@ -491,17 +524,18 @@ def run(ctx):
             pi = plans[r["op"]]
             ctx.violation("panic:%s" % pi.sig(r["case"]["faults"]), "panic while resolving under faults: %s" % r["panic"][:300],
                           {"case": r["case"], "operation": op_dict(next(o for o in OPS if o[0] == r["op"])), "result": r})
-        elif not r["arrived"] or r["unrealised"]:
+        elif not r["arrived"] or r["unrealised"] or (r.get("repeat") and not r["repeat"]["arrived"]):
             retry.append(r)
         else:
             ok_results.append(r)
     unreal = 0
     if WEDGES["n"] >= 3:
         ctx.notes.append("replay stopped early after %d cases that did not answer within the deadline" % WEDGES["n"])
-    retry.sort(key=lambda r: (r["arrived"], r["id"]))
+    hung = lambda r: (not r["arrived"]) or bool(r.get("repeat") and not r["repeat"]["arrived"])
+    retry.sort(key=lambda r: (not hung(r), r["id"]))
     confirmed = 0
     for r in retry:
-        if confirmed >= 2 and not r["arrived"]:
+        if confirmed >= 2 and hung(r):
             continue
         # a miss is re-run once, alone, before it counts
         WEDGES["n"] = 0
@@ -509,7 +543,12 @@ def run(ctx):
         a = again[0] if again else r
         a["case"] = r["case"]
         pi = plans[r["op"]]
-        if not a["arrived"]:
+        if a["arrived"] and a.get("repeat") and not a["repeat"]["arrived"]:
+            confirmed += 1
+            ctx.violation("poisoned:%s" % pi.sig(r["case"]["faults"], a),
+                          "after the faulty execution of %s (faults %s) the same operation, repeated fault-free on the same gateway, did "
+                          "not answer within 10 s (twice)" % (r["op"], r["case"]["faults"]), {"case": r["case"], "result": a})
+        elif not a["arrived"]:
             confirmed += 1
             ctx.violation("wedged:%s" % pi.sig(r["case"]["faults"]),
                           "no response within 10 s (twice) for %s under faults %s" % (r["op"], r["case"]["faults"]),
@@ -546,7 +585,7 @@ def run(ctx):
         fid = ev.get("f", 0) - 1
         if verdict in PER_FETCH and 0 <= fid < pi.n:
             # these speak about one fetch: the one whose event made the invariant false
-            key = "%s:%s/%s" % (verdict, pi.fetches[fid]["kind"], r["case"]["faults"].get(str(fid), "ok"))
+            key = fetch_key(pi, verdict, fid, r["case"]["faults"], r)
         else:
             key = "%s:%s" % (verdict, pi.sig(r["case"]["faults"], r))
         if verdict == "nonconformance":
@@ -573,12 +612,16 @@ def run(ctx):
             return any(corrupt_leaf(c) for c in x.get("c", []))
         v1 = [e for i, e in enumerate(base) if not (e["ev"] == "ld.merged" and i == max(j for j, q in enumerate(base) if q["ev"] == "ld.merged"))]
         v2 = json.loads(json.dumps(base))
-        changed = corrupt_leaf(v2[-1]["x"])
+        changed = corrupt_leaf(next(e for e in v2 if e["ev"] == "response")["x"])
+        v4 = json.loads(json.dumps(base))
+        changed4 = v4[-1]["ev"] == "repeat" and corrupt_leaf(v4[-1]["x"])
         v3 = json.loads(json.dumps(base))
         next(e for e in v3 if e["ev"] == "req" and e["f"] >= 2 or e["ev"] == "req")["ents"].append(777)
         expect = [("dropped ld.merged event", v1, "nonconformance"), ("fabricated representation in a request", v3, "NoFabrication")]
         if changed:
             expect.append(("corrupted value in the response data", v2, "Isolated"))
+        if changed4:
+            expect.append(("corrupted value in the response of the repetition", v4, "RepeatClean"))
         stuck_before = STUCK["n"]
         for i, (what, tr, want) in enumerate(expect):
             got = {p[1] for p in validate_batch(ctx, 9000 + i, tr, [demo["id"]] * len(tr))}
